@@ -67,3 +67,49 @@ def decResource (j : Json) : Resource :=
   { version := getStr j "lmf_version", lexicons := (getArr j "lexicons").map decLexicon }
 
 end WnVerif.Drv
+
+namespace WnVerif.Drv
+open WnVerif.Doc
+
+/-! encoding (debugging aid: shown when model and implementation disagree) -/
+def eOpt (k : String) (o : Option String) : List (String × Json) := match o with | some s => [(k, jStr s)] | none => []
+def eOptB (k : String) (o : Option Bool) : List (String × Json) := match o with | some b => [(k, Json.bool b)] | none => []
+def eMeta (m : Option Meta) : List (String × Json) :=
+  [("meta", match m with | some kv => Json.mkObj (kv.map fun (a, b) => (a, jStr b)) | none => Json.null)]
+def eList (k : String) (l : List Json) : List (String × Json) := if l.isEmpty then [] else [(k, jArr l)]
+
+def ePron (p : Pron) : Json := jObj ([("text", jStr p.text)] ++ eOpt "variety" p.variety ++ eOpt "notation" p.notat ++ eOptB "phonemic" p.phonemic ++ eOpt "audio" p.audio)
+def eTag (t : Tag) : Json := jObj [("text", jStr t.text), ("category", jStr t.category)]
+def eLemma (l : Lemma) : Json :=
+  jObj ([("external", Json.bool l.external), ("writtenForm", jStr l.form), ("partOfSpeech", jStr l.pos)] ++
+    eOpt "script" l.script ++ eList "pronunciations" (l.prons.map ePron) ++ eList "tags" (l.tags.map eTag))
+def eForm (f : Form) : Json :=
+  jObj ([("external", Json.bool f.external), ("writtenForm", jStr f.form)] ++ eOpt "id" f.id ++
+    eOpt "script" f.script ++ eList "pronunciations" (f.prons.map ePron) ++ eList "tags" (f.tags.map eTag))
+def eRel (r : Relation) : Json := jObj ([("target", jStr r.target), ("relType", jStr r.relType)] ++ eMeta r.md)
+def eEx (e : Example) : Json := jObj ([("text", jStr e.text)] ++ eOpt "language" e.language ++ eMeta e.md)
+def eCount (c : Count) : Json := jObj ([("value", jInt c.value)] ++ eMeta c.md)
+def eSense (s : Sense) : Json :=
+  jObj ([("id", jStr s.id), ("external", Json.bool s.external), ("synset", jStr s.synset)] ++ eMeta s.md ++
+    eList "relations" (s.relations.map eRel) ++ eList "examples" (s.examples.map eEx) ++ eList "counts" (s.counts.map eCount) ++
+    eOptB "lexicalized" s.lexicalized ++ eOpt "adjposition" s.adjposition ++ eList "subcat" (s.subcat.map jStr))
+def eDef (d : Definition) : Json := jObj ([("text", jStr d.text)] ++ eOpt "language" d.language ++ eOpt "sourceSense" d.sourceSense ++ eMeta d.md)
+def eSynset (s : Synset) : Json :=
+  jObj ([("id", jStr s.id), ("external", Json.bool s.external), ("ili", jStr s.ili)] ++ eOpt "partOfSpeech" s.pos ++ eMeta s.md ++
+    (match s.iliDef with | some d => [("ili_definition", jObj ([("text", jStr d.text)] ++ eMeta d.md))] | none => []) ++
+    eList "definitions" (s.definitions.map eDef) ++ eList "relations" (s.relations.map eRel) ++ eList "examples" (s.examples.map eEx) ++
+    eOptB "lexicalized" s.lexicalized ++ eList "members" (s.members.map jStr) ++ eOpt "lexfile" s.lexfile)
+def eFrame (f : Frame) : Json := jObj ([("subcategorizationFrame", jStr f.frame)] ++ eOpt "id" f.id ++ eList "senses" (f.senses.map jStr))
+def eEntry (e : Entry) : Json :=
+  jObj ([("id", jStr e.id), ("external", Json.bool e.external)] ++ eMeta e.md ++
+    (match e.lemma with | some l => [("lemma", eLemma l)] | none => []) ++
+    eList "forms" (e.forms.map eForm) ++ eList "senses" (e.senses.map eSense) ++ eList "frames" (e.frames.map eFrame))
+def eDep (d : Dep) : Json := jObj ([("id", jStr d.id), ("version", jStr d.version)] ++ eOpt "url" d.url)
+def eLexicon (l : Lexicon) : Json :=
+  jObj ([("id", jStr l.id), ("version", jStr l.version), ("label", jStr l.label), ("language", jStr l.language),
+         ("email", jStr l.email), ("license", jStr l.license)] ++ eOpt "url" l.url ++ eOpt "citation" l.citation ++ eOpt "logo" l.logo ++
+    eMeta l.md ++ (match l.ext with | some d => [("extends", eDep d)] | none => []) ++ eList "requires" (l.requires.map eDep) ++
+    eList "entries" (l.entries.map eEntry) ++ eList "synsets" (l.synsets.map eSynset) ++ eList "frames" (l.frames.map eFrame))
+def eResource (r : Resource) : Json := jObj [("lmf_version", jStr r.version), ("lexicons", jArr (r.lexicons.map eLexicon))]
+
+end WnVerif.Drv
